@@ -243,7 +243,8 @@ pub fn record_main(args: &[String]) -> i32 {
         let mut objs = Vec::new();
         for j in 0..n {
             let kind = ['C', 'C', 'S', 'S', 'P', 'H'][rng.gen_range(0..6)];
-            let gap = [0.0, 1.0, 125.0, 250.0, 500.0, 3000.0][rng.gen_range(0..6)];
+            // (whole milliseconds mostly; sometimes a fraction above one half: the converters round some times and floor others)
+            let gap = [0.0, 1.0, 125.0, 250.0, 500.0, 3000.0, 125.6, 0.7][rng.gen_range(0..8)];
             t += gap;
             objs.push(GenObj {
                 id: j + 1,
